@@ -237,15 +237,96 @@ class AddIntervalData(Scenario):
             return "ok"
 
 
+class AddMixed(Scenario):
+    """depth and interval logs added in a given order to one hole (one entry each): vertices with a depth sit at its position,
+    every cell joins the positions of its from/to depths, each value stays with its depth / interval"""
+    pid = "C18"
+    builtins_for = ("geoh5py.objects.drillhole:float,int",)
+
+    def body(self, cx):
+        from geoh5py.workspace import Workspace
+        from geoh5py.objects import Drillhole
+        order = self.params["order"]
+        tol = 0.5 if self.params.get("tol", True) else 0
+        ws = Workspace()
+        dh = Drillhole.create(ws, collar=[10.0, 20.0, 30.0],
+                              surveys=real_np.c_[[0.0, 8.0, 16.0], [0.0, 40.0, 40.0], [-90.0, -60.0, -45.0]])
+        patch.detach(ws, dh)
+        with self.engine(cx) as X:
+            logs = []
+            for li, kind in enumerate(order):
+                v = cx.real(f"v{li}")
+                if kind == "depth":
+                    z = cx.real(f"z{li}")
+                    cx.assume(z >= 0)
+                    data = dh.add_data({f"log{li}": {"depth": mk_array(X, [z], (1,), "float64"),
+                                                     "values": mk_array(X, [v], (1,), "float64")}}, collocation_distance=tol)
+                    logs.append(("depth", z, None, v, data))
+                else:
+                    f, t = cx.real(f"f{li}"), cx.real(f"t{li}")
+                    cx.assume(f >= 0)
+                    cx.assume(f < t)
+                    data = dh.add_data({f"log{li}": {"from-to": mk_array(X, [f, t], (1, 2), "float64"),
+                                                     "values": mk_array(X, [v], (1,), "float64")}}, collocation_distance=tol)
+                    logs.append(("interval", f, t, v, data))
+            nv = shape(dh.vertices)[0]
+            ve = elems(dh.vertices)
+            dd = dh.get_data("DEPTH")
+            depth = elems(dd[0].values) if dd else []
+            depth = depth + [float("nan")] * (nv - len(depth))
+            known = [i for i in range(nv) if not is_nan_(depth[i])]
+            if known:
+                pos = elems(dh.desurvey(mk_array(X, [depth[i] for i in known], (len(known),), "float64")))
+                cx.prove(And([eq(ve[i * 3 + a], pos[k * 3 + a]) for k, i in enumerate(known) for a in range(3)]),
+                         "every vertex that has a depth sits at the position of that depth", "vertex positions")
+            close = (lambda p, q: And(p - q < tol, q - p < tol)) if tol else (lambda p, q: eq(p, q))
+            if dh.cells is not None and shape(dh.cells)[0] and dh.from_ is not None:
+                cells = elems(dh.cells)
+                nc = shape(dh.cells)[0]
+                fr, to = elems(dh.from_.values), elems(dh.to_.values)
+                cx.prove(len(fr) == nc and len(to) == nc and And([And(c >= 0, c < nv) for c in cells]),
+                         "one FROM/TO pair per cell, cells reference existing vertices", "alignment")
+                pf = elems(dh.desurvey(mk_array(X, fr, (nc,), "float64")))
+                pt = elems(dh.desurvey(mk_array(X, to, (nc,), "float64")))
+                for r in range(nc):
+                    same = []
+                    for ax in range(3):
+                        same.append(eq(select([ve[q * 3 + ax] for q in range(nv)], cells[2 * r]), pf[3 * r + ax]))
+                        same.append(eq(select([ve[q * 3 + ax] for q in range(nv)], cells[2 * r + 1]), pt[3 * r + ax]))
+                    cx.prove(And(same), f"cell {r} joins the positions of its from and to depths", "cell positions")
+            else:
+                nc, fr, to = 0, [], []
+            for kind, a, b, v, data in logs:
+                vals = elems(data.values)
+                if kind == "depth":
+                    vals = vals + [float("nan")] * (nv - len(vals))
+                    cx.prove(Or([And(close(depth[k], a), eq(vals[k], v)) for k in known]),
+                             "a depth value stays attached to its (or the collocated) depth", "values attached to depths")
+                else:
+                    vals = vals + [float("nan")] * (nc - len(vals))
+                    cx.prove(Or([And(close(fr[r], a), close(to[r], b), eq(vals[r], v)) for r in range(nc)]),
+                             "an interval value stays attached to its (or the collocated) interval", "values attached to intervals")
+            return "ok"
+
+
+def is_nan_(x):
+    return isinstance(x, float) and x != x
+
+
 def scenarios(tier, seed):
     if tier == "quick":
         return [Desurvey(rows=1, queries=2), Desurvey(rows=2, queries=1), Desurvey(rows=2, queries=2),
                 MatchValues(n=3, m=1), MatchValues(n=2, m=2), AddDepthData(n1=2, n2=1),
-                AddIntervalData(n1=2, n2=0), AddIntervalData(n1=1, n2=1)]
+                AddIntervalData(n1=2, n2=0), AddIntervalData(n1=1, n2=1),
+                AddMixed(order=["interval", "depth"]), AddMixed(order=["depth", "interval", "depth"]),
+                AddMixed(order=["depth", "depth"], tol=False)]
     return [Desurvey(rows=1, queries=2), Desurvey(rows=2, queries=2), Desurvey(rows=3, queries=1),
             MatchValues(n=3, m=2), MatchValues(n=4, m=1), MatchValues(n=2, m=3), MatchValues(n=1, m=1),
             AddDepthData(n1=2, n2=1), AddDepthData(n1=2, n2=2), AddDepthData(n1=3, n2=1), AddDepthData(n1=1, n2=2),
-            AddIntervalData(n1=2, n2=0), AddIntervalData(n1=1, n2=1), AddIntervalData(n1=2, n2=1), AddIntervalData(n1=3, n2=0)]
+            AddIntervalData(n1=2, n2=0), AddIntervalData(n1=1, n2=1), AddIntervalData(n1=2, n2=1), AddIntervalData(n1=3, n2=0),
+            AddMixed(order=["interval", "depth"]), AddMixed(order=["depth", "interval", "depth"]),
+            AddMixed(order=["interval", "depth", "interval"]), AddMixed(order=["depth", "depth"], tol=False),
+            AddMixed(order=["interval", "interval"], tol=False)]
 
 
 def main(tier, seed):
@@ -259,10 +340,10 @@ def main(tier, seed):
             "survey depths non-decreasing and >= 0; query depths >= 0",
             "seam A: real in-memory Workspace, save_entity no-op; float/int stand-ins injected in geoh5py.objects.drillhole",
         ],
-        outside=["three or more successive logs; mixed depth and interval logs on one hole; text data",
+        outside=["more than three successive logs; text data",
                  "float32 rounding of stored surveys", "direction beyond the last station when the last leg has zero length",
                  "more than 3 survey rows (z3 needs > 40 min on 4 rows: dropped from the thorough tier)"],
         bounds={"quick": "survey tables with 1-2 rows, 1-2 symbolic query depths; match_values/merge_arrays with <=3 head and <=2 query values (any order)", "thorough": "1-3 rows, 1-2 query depths; match/merge with <=4 head, <=3 query values"}[tier],
-        expected_outcomes={"Desurvey": {"ok"}, "MatchValues": {"ok"}, "AddDepthData": {"ok"}, "AddIntervalData": {"ok"}},
+        expected_outcomes={"Desurvey": {"ok"}, "MatchValues": {"ok"}, "AddDepthData": {"ok"}, "AddIntervalData": {"ok"}, "AddMixed": {"ok"}},
         timeout_ms=8000 if tier == "quick" else 20000,
     )
